@@ -492,7 +492,7 @@ package quickfix
 //@ iface MessageRejectError.Error(recv)
 //@   pure
 
-// doReject: RefSeqNum, when set, is the offending MsgSeqNum; the reply is sent as a reply to the rejected message (C06).
+// doReject: RefSeqNum is set whenever the offending MsgSeqNum is readable and then equals it; the reply is sent as a reply to the rejected message (C06).
 // Not stated here (the proof did not go through within the time limit): the MsgType and reason fields of the reply.
 // No modifies clause: callers only rely on the postconditions (the frame proof of this long function costs minutes).
 //@ spec onebyte(d []byte, c int) bool = len(d) == 1 && d[0] == c
